@@ -48,21 +48,30 @@ func vpIter(api int, r io.Reader, fn func(vpIt) bool) {
 	}
 }
 
-func vpIterFile(api int, path string, fn func(vpIt) bool) {
+// vpFileRunner takes ONE File/FileHeader iterator value and returns a function
+// that ranges over that same value each time it is called.
+func vpFileRunner(api int, path string) func(fn func(vpIt) bool) {
 	if api == 1 {
-		for sh, err := range FileHeader(path) {
-			if !fn(vpItemOf(sh.S, sh.H, err)) {
+		seq := FileHeader(path)
+		return func(fn func(vpIt) bool) {
+			for sh, err := range seq {
+				if !fn(vpItemOf(sh.S, sh.H, err)) {
+					break
+				}
+			}
+		}
+	}
+	seq := File(path)
+	return func(fn func(vpIt) bool) {
+		for s, err := range seq {
+			if !fn(vpItemOf(s, nil, err)) {
 				break
 			}
 		}
-		return
-	}
-	for s, err := range File(path) {
-		if !fn(vpItemOf(s, nil, err)) {
-			break
-		}
 	}
 }
+
+func vpIterFile(api int, path string, fn func(vpIt) bool) { vpFileRunner(api, path)(fn) }
 
 func vpRawOK(c byte) bool { return true }
 
